@@ -43,11 +43,32 @@ theorem de_rejects_short (r : BitSeqRepr) (h : r.headIndex + r.bits > 64 * r.dat
   have : ¬ (r.headIndex ≥ 64) := by omega
   simp [de, ho, hh.1, this, h]
 
+/-- the round trip also holds for an owned sequence whose bit vector starts mid-word (head 1..63), whatever the
+    bits below its head are: the reader drops exactly `head` bits and keeps exactly `bits` -/
+theorem seq_roundtrip_at (dead bs : Bits) (hd : dead.length < 64) : de (serAt dead bs) = .ok bs := by
+  have hlen : (Seq.intoRaw (dead ++ bs)).length = ((dead ++ bs).length + 63) / 64 := C04.intoRaw_length _
+  have hfit : ¬ (dead.length + bs.length > 64 * (Seq.intoRaw (dead ++ bs)).length) := by
+    rw [hlen, List.length_append]; omega
+  have hh : ¬ (dead.length ≥ 64) := by omega
+  simp only [de, serAt, ne_eq, not_true_eq_false, if_false, false_or, hfit, hh]
+  have hl := C04.intoRaw_layout (dead ++ bs)
+  have : ((bitsOfWords (Seq.intoRaw (dead ++ bs))).drop dead.length).take bs.length = bs := by
+    have h2 : (bitsOfWords (Seq.intoRaw (dead ++ bs))).take (dead.length + bs.length) = dead ++ bs := by
+      rw [← List.length_append]; exact hl
+    have h3 := @List.drop_take _ dead.length (dead.length + bs.length) (bitsOfWords (Seq.intoRaw (dead ++ bs)))
+    rw [Nat.add_sub_cancel_left] at h3
+    rw [← h3, h2, List.drop_left]
+  rw [this]
+
+/-- `serAt [] = ser`: the ordinary case is head 0 -/
+theorem serAt_nil (bs : Bits) : serAt [] bs = ser bs := rfl
+
 theorem kmer_roundtrip (v : Nat) : deKmer (serKmer v) = v := rfl
 
 /-- non-vacuity: a 70-bit sequence (two words) -/
 example : (de (ser (pack 5 (List.range 14)))).toOption = some (pack 5 (List.range 14)) := by decide +kernel
 example : (ser (pack 2 [0, 1, 2, 3, 0])).data = [228] := by decide +kernel
+example : (de (serAt [true, false, true] (pack 5 (List.range 14)))).toOption = some (pack 5 (List.range 14)) := by decide +kernel
 
 end C18
 end BioSeq
